@@ -1,6 +1,6 @@
 import sys, json, importlib, time
 sys.path.insert(0, '/verif')
-mods = ['contracts.c16_penalty', 'contracts.c18_filter']
+import pkgutil, contracts; mods = ['contracts.'+m.name for m in pkgutil.iter_modules(contracts.__path__)]
 for m in mods: importlib.import_module(m)
 from pyvc.harness import UNITS, run_unit
 pat = sys.argv[1] if len(sys.argv) > 1 else ''
